@@ -1,5 +1,8 @@
 (* C11 -- Tracepoint configuration is interpreted as documented, one tracepoint at a time. *)
 From Deep Require Import Base Match MatchProofs TriggerTable TriggerTableProofs.
+From DeepGen Require Import PTable.
+From Deep Require Import TieTable.
+From Deep Require Import PureSupport.
 From Coq Require Import Permutation.
 
 (* for EVERY argument map, watches and metrics of an interpretable tracepoint: *)
@@ -73,3 +76,12 @@ Theorem C11_response_keeps_all_actions :
   forall resp l, Permutation (all_at (convert resp) l) (flat_map (fun t => contributes t l) resp).
 Proof. exact convert_keeps_all. Qed.
 Print Assumptions C11_response_keeps_all_actions.
+
+(* ---- tie by translation: build_trigger and the four action builders as they are in /repo/src NOW produce, for every
+   argument map, exactly the location and the action descriptions of the model's table *)
+Theorem C11_the_code_table_is_the_model :
+  forall tp p n a w nm,
+  option_map (fun t : gtrigger => (fst t, map adesc_of (snd t))) (gen_build_trigger tp p n a w nm) =
+  build {| tp_id := tp; tp_path := p; tp_line := n; tp_args := a; tp_watches := w; tp_nmetrics := nm |}.
+Proof. exact tie_build_trigger. Qed.
+Print Assumptions C11_the_code_table_is_the_model.
